@@ -115,7 +115,7 @@ static inline void L0_E_copy_construct(E *d, const E *s) {
 }
 static inline void L0_E_move_construct(E *d, E *s) {
   l0_range_ok(d, 1, "dst"); l0_range_ok(s, 1, "src");
-  L0_assert(d != s, "C02: never move-constructed onto itself");
+  L0_assert(d != s, "C01 C02: never move-constructed onto itself");
   if (l0_cell_at(s)) L0_assert(g_cell_st == ST_LIVE, "C02 C10: move source is alive and not moved-from");
   if (l0_cell_at(d)) L0_assert(ST_OK_CONSTRUCT(g_cell_st), "C02: construct only on raw memory");
 #if !CAT_NOTHROW_MOVE
@@ -157,7 +157,7 @@ static inline void L0_E_copy_assign(E *d, const E *s) {
 }
 static inline void L0_E_move_assign(E *d, E *s) {
   l0_range_ok(d, 1, "dst"); l0_range_ok(s, 1, "src");
-  L0_assert(d != s, "C02: an element is never move-assigned onto itself");
+  L0_assert(d != s, "C01 C02: an element is never move-assigned onto itself");
   if (l0_cell_at(s)) L0_assert(g_cell_st == ST_LIVE, "C02 C10: move source is alive and not moved-from");
   if (l0_cell_at(d)) L0_assert(ST_OK_ASSIGN(g_cell_st), "C02: assign only onto a constructed object");
   int v = l0_valat(OBJ(s), OFF(s));
@@ -236,7 +236,7 @@ static inline void l0_partial_assign(E *d, const E *s_or_null, uint64_t n, int v
 static inline E *L0_move(E *f, E *l, E *d) {            /* std::move(f, l, d): ascending move-assignment */
   uint64_t n = L0_COUNT(l - f);
   if (n) {
-    L0_assert(f != d, "C02: an element is never move-assigned onto itself");
+    L0_assert(f != d, "C01 C02: an element is never move-assigned onto itself");
     L0_assert(!(OBJ(d) == OBJ(f) && OFF(d) > OFF(f) && OFF(d) < OFF(f) + n * ESZ), "C01: std::move destination not inside the source range");
     l0_transfer(d, f, n, TR_MOVE);
     g_nassign += n; g_nmove += n;
@@ -246,7 +246,7 @@ static inline E *L0_move(E *f, E *l, E *d) {            /* std::move(f, l, d): a
 static inline E *L0_move_backward(E *f, E *l, E *dl) {  /* std::move_backward */
   uint64_t n = L0_COUNT(l - f);
   if (n) {
-    L0_assert(l != dl, "C02: an element is never move-assigned onto itself");
+    L0_assert(l != dl, "C01 C02: an element is never move-assigned onto itself");
     L0_assert(!(OBJ(dl) == OBJ(f) && OFF(dl) > OFF(f) && OFF(dl) < OFF(f) + n * ESZ), "C01: std::move_backward destination end not inside the source range");
     l0_transfer(dl - n, f, n, TR_MOVE);
     g_nassign += n; g_nmove += n;
